@@ -1,8 +1,8 @@
 (* C07 -- Resolution is local and independent of declaration order.
-   Statements only; proofs are [exact] of lemmas in Resolver/LocalFacts.v, CondFacts.v, Ext.v. *)
+   Statements only; proofs are [exact] of lemmas in Resolver/LocalFacts.v, CondFacts.v, Ext.v, PermFacts.v. *)
 From Coq Require Import List Bool NArith ZArith Permutation.
 From PV Require Import Base.Str Base.Value Resolver.Consts Resolver.Text Resolver.Resolve Resolver.Spec Resolver.Ext
-  Resolver.Template Resolver.CondFacts Resolver.ParamFacts Resolver.LocalFacts.
+  Resolver.Template Resolver.CondFacts Resolver.ParamFacts Resolver.LocalFacts Resolver.PermFacts.
 Import ListNotations.
 Local Open Scope N_scope.
 
@@ -78,3 +78,146 @@ Example C07_ex_no_leak :
                      VDict [(K_Ref, VStr REGION)]])
   = Ok (VList [VStr [120]; VStr [101;117]]).
 Proof. vm_compute. reflexivity. Qed.
+
+(* ================================================================================================================== *)
+(* The order of the keys inside any object, at any depth, does not matter (Resolver/PermFacts.v).
+
+   [vperm v w]     : v and w are the same value up to reordering the entries of objects at any depth (lists keep their
+                     order, scalars are equal);
+   [nodup_keys v]  : no object inside v has two entries with the same key (always true after json.load / for a Python dict);
+   [env_nodup e]   : the same for the parameter values and the mappings of the environment;
+   [rel_res R x y] : both [Ok] with R-related results, or both [Err].  The error KIND is not compared, and cannot be: when two
+                     entries of one object both fail, the exception raised is the one of the entry met first
+                     (example [C07_ex_error_kind_depends_on_order] below).
+   [eperm e e']    : every parameter / mapping lookup gives [vperm]-related values, every condition reference the same
+                     value (or an error in both).                                                                      *)
+(* ================================================================================================================== *)
+
+(* [vperm] is an equivalence relation, it contains every reordering of the entries of one object, it is a congruence for
+   object entries and list members by definition; [vpermb] is a computable sufficient test for it *)
+Theorem C07_vperm_equivalence :
+  (forall v, vperm v v) /\ (forall v w, vperm v w -> vperm w v) /\ (forall a b c, vperm a b -> vperm b c -> vperm a c).
+Proof. exact (conj vperm_refl (conj vperm_sym vperm_trans)). Qed.
+Print Assumptions C07_vperm_equivalence.
+Theorem C07_vperm_reorder_one_object : forall d d', Permutation d d' -> vperm (VDict d) (VDict d').
+Proof. exact vperm_dict_permutation. Qed.
+Print Assumptions C07_vperm_reorder_one_object.
+Theorem C07_vpermb_sound : forall a b, vpermb a b = true -> vperm a b.
+Proof. exact vpermb_sound. Qed.
+Print Assumptions C07_vpermb_sound.
+Theorem C07_vperm_keeps_nodup : forall v w, vperm v w -> nodup_keys v -> nodup_keys w.
+Proof. exact vperm_nodup. Qed.
+Print Assumptions C07_vperm_keeps_nodup.
+
+(* THE THEOREM (one environment): reordering the keys of any objects of an expression, at any depth -- including the
+   variable map of a Fn::Sub -- changes neither whether resolution succeeds nor, up to key order, its result *)
+Theorem C07_object_keys_perm : forall e v w, env_nodup e -> vperm v w -> nodup_keys v ->
+  rel_res vperm (resolve e v) (resolve e w).
+Proof. exact resolve_vperm. Qed.
+Print Assumptions C07_object_keys_perm.
+
+(* ... and the keys inside parameter values and inside Mappings may be reordered at the same time *)
+Theorem C07_object_keys_perm_env : forall e e' v w, eperm e e' -> env_nodup e -> vperm v w -> nodup_keys v ->
+  rel_res vperm (resolve e v) (resolve e' w).
+Proof. exact resolve_vperm_env. Qed.
+Print Assumptions C07_object_keys_perm_env.
+
+(* the same, read off: success is preserved with a [vperm]-related result; failure is preserved; a result that contains no
+   object (a string, a list of strings, ...) is preserved exactly *)
+Theorem C07_object_keys_perm_ok : forall e e' v w r, eperm e e' -> env_nodup e -> vperm v w -> nodup_keys v ->
+  resolve e v = Ok r -> exists r', resolve e' w = Ok r' /\ vperm r r'.
+Proof. exact resolve_vperm_ok. Qed.
+Print Assumptions C07_object_keys_perm_ok.
+Theorem C07_object_keys_perm_same_success : forall e e' v w, eperm e e' -> env_nodup e -> vperm v w -> nodup_keys v ->
+  is_ok (resolve e v) = is_ok (resolve e' w).
+Proof. exact resolve_vperm_is_ok. Qed.
+Print Assumptions C07_object_keys_perm_same_success.
+Theorem C07_object_keys_perm_flat_result : forall e e' v w r, eperm e e' -> env_nodup e -> vperm v w -> nodup_keys v ->
+  resolve e v = Ok r -> no_dict r = true -> resolve e' w = Ok r.
+Proof. exact resolve_vperm_no_dict. Qed.
+Print Assumptions C07_object_keys_perm_flat_result.
+
+(* resolution never creates duplicate keys (so the hypotheses above are stable under resolving again) *)
+Theorem C07_resolve_keeps_nodup : forall e v r, env_nodup e -> nodup_keys v -> resolve e v = Ok r -> nodup_keys r.
+Proof. exact resolve_nodup. Qed.
+Print Assumptions C07_resolve_keeps_nodup.
+
+(* Fn::Equals compares with Python's ==, which ignores the order of keys: the model's [py_eq] gives the same answer on the
+   whole [vperm] class of each argument (unique keys are needed in the second argument only, the one that is looked up in) *)
+Theorem C07_equals_ignores_key_order : forall a a' b b', vperm a a' -> vperm b b' -> nodup_keys b -> py_eq a b = py_eq a' b'.
+Proof. exact py_eq_vperm. Qed.
+Print Assumptions C07_equals_ignores_key_order.
+(* the Fn::Sub variable map is an object: only its lookups matter *)
+Theorem C07_sub_map_keys_perm : forall e e' text custom custom', eperm e e' -> lookups_perm custom custom' ->
+  rel_res vperm (do_sub e text custom) (do_sub e' text custom').
+Proof. exact do_sub_vperm. Qed.
+Print Assumptions C07_sub_map_keys_perm.
+Theorem C07_object_lookup_keys_perm : forall d d', vperm (VDict d) (VDict d') -> NoDup (keys d) -> lookups_perm d d'.
+Proof. exact vperm_lookup. Qed.
+Print Assumptions C07_object_lookup_keys_perm.
+
+(* template level.  Permuting the keys inside a resource's definition: the gate is unchanged ... *)
+Theorem C07_resource_keys_perm_gate : forall resolved r w, vperm r w -> nodup_keys r -> gate resolved r = gate resolved w.
+Proof. exact gate_vperm. Qed.
+Print Assumptions C07_resource_keys_perm_gate.
+(* ... and the resolved resource (resolution + literal Type put back) is the same up to key order *)
+Theorem C07_resource_keys_perm : forall e e' r w, eperm e e' -> env_nodup e -> vperm r w -> nodup_keys r ->
+  rel_res vperm (resolve_resource e r) (resolve_resource e' w).
+Proof. exact resolve_resource_vperm. Qed.
+Print Assumptions C07_resource_keys_perm.
+(* the Resources section as one object: resources reordered AND keys permuted inside them *)
+Theorem C07_resources_keys_perm : forall e e' resolved rs rs', eperm e e' -> env_nodup e ->
+  vperm (VDict rs) (VDict rs') -> Forall (fun kv => nodup_keys (snd kv)) rs ->
+  rel_res (fun a b => vperm (VDict a) (VDict b)) (resolve_resources e resolved rs) (resolve_resources e' resolved rs').
+Proof. exact resolve_resources_vperm. Qed.
+Print Assumptions C07_resources_keys_perm.
+(* condition values: keys permuted inside the declared expressions, the parameter values, the mappings; declarations reordered *)
+Theorem C07_condition_keys_perm : forall ps ps' maps maps' decl decl' n,
+  lookups_perm ps ps' -> lookups_perm maps maps' -> vperm (VDict decl) (VDict decl') ->
+  (forall k x, lookup k ps = Some x -> nodup_keys x) -> (forall k x, lookup k maps = Some x -> nodup_keys x) ->
+  nodup_keys (VDict decl) ->
+  rel_res eq (cond_root ps maps decl n) (cond_root ps' maps' decl' n).
+Proof. exact cond_root_vperm. Qed.
+Print Assumptions C07_condition_keys_perm.
+(* the whole resolved model, for the same Parameters: Mappings, Conditions and Resources each replaced by a [vperm]-related
+   section (sections reordered, keys permuted at any depth inside them) *)
+Theorem C07_model_keys_perm : forall pseudo decls extra maps maps' cdecl cdecl' rs rs',
+  (forall ps, bind_params pseudo decls extra = Ok ps -> forall k x, lookup k ps = Some x -> nodup_keys x) ->
+  lookups_perm maps maps' -> (forall k x, lookup k maps = Some x -> nodup_keys x) ->
+  vperm (VDict cdecl) (VDict cdecl') -> nodup_keys (VDict cdecl) ->
+  vperm (VDict rs) (VDict rs') -> Forall (fun kv => nodup_keys (snd kv)) rs ->
+  rel_res vperm (resolve_model pseudo decls extra maps cdecl rs) (resolve_model pseudo decls extra maps' cdecl' rs').
+Proof. exact resolve_model_vperm. Qed.
+Print Assumptions C07_model_keys_perm.
+
+(* ---- examples ----
+   a = {"Name": {"Fn::Sub": ["${A}-${B}", {"A": "x", "B": {"Ref": "AWS::Region"}}]}, "Tags": {"k": "v", "l": [{"p": "1", "q": "2"}]}}
+   b = {"Tags": {"l": [{"q": "2", "p": "1"}], "k": "v"}, "Name": {"Fn::Sub": ["${A}-${B}", {"B": {"Ref": "AWS::Region"}, "A": "x"}]}} *)
+Definition s_Name : str := [78;97;109;101].
+Definition s_Tags : str := [84;97;103;115].
+Definition s_tmpl : str := [36;123;65;125;45;36;123;66;125].
+Definition ex_a : value :=
+  VDict [(s_Name, VDict [(K_Sub, VList [VStr s_tmpl; VDict [([65], VStr [120]); ([66], VDict [(K_Ref, VStr REGION)])]])]);
+         (s_Tags, VDict [([107], VStr [118]); ([108], VList [VDict [([112], VStr [49]); ([113], VStr [50])]])])].
+Definition ex_b : value :=
+  VDict [(s_Tags, VDict [([108], VList [VDict [([113], VStr [50]); ([112], VStr [49])]]); ([107], VStr [118])]);
+         (s_Name, VDict [(K_Sub, VList [VStr s_tmpl; VDict [([66], VDict [(K_Ref, VStr REGION)]); ([65], VStr [120])]])])].
+Example C07_ex_keys_hypotheses : vpermb ex_a ex_b = true /\ nodup_keysb ex_a = true /\ nodup_keysb (VDict (params e1)) = true.
+Proof. vm_compute. repeat split; reflexivity. Qed.
+Example C07_ex_keys_resolved :
+  resolve e1 ex_a = Ok (VDict [(s_Name, VStr [120;45;101;117]);
+                               (s_Tags, VDict [([107], VStr [118]); ([108], VList [VDict [([112], VStr [49]); ([113], VStr [50])]])])]) /\
+  resolve e1 ex_b = Ok (VDict [(s_Tags, VDict [([108], VList [VDict [([113], VStr [50]); ([112], VStr [49])]]); ([107], VStr [118])]);
+                               (s_Name, VStr [120;45;101;117])]).
+Proof. vm_compute. split; reflexivity. Qed.
+(* why error kinds are not compared: {"a": {"Fn::Join": []}, "b": {"Ref": []}} raises ValueError, b-first raises TypeError *)
+Example C07_ex_error_kind_depends_on_order :
+  resolve e1 (VDict [([97], VDict [(K_Join, VList [])]); ([98], VDict [(K_Ref, VList [])])]) = Err EValue /\
+  resolve e1 (VDict [([98], VDict [(K_Ref, VList [])]); ([97], VDict [(K_Join, VList [])])]) = Err EType.
+Proof. vm_compute. split; reflexivity. Qed.
+(* why unique keys are assumed: an association list with a repeated key is not a Python dict; the first entry wins *)
+Example C07_ex_duplicate_keys_excluded :
+  resolve e1 (VDict [(K_Sub, VList [VStr [36;123;86;125]; VDict [([86], VStr [120]); ([86], VStr [121])]])]) = Ok (VStr [120]) /\
+  resolve e1 (VDict [(K_Sub, VList [VStr [36;123;86;125]; VDict [([86], VStr [121]); ([86], VStr [120])]])]) = Ok (VStr [121]) /\
+  nodup_keysb (VDict [([86], VStr [120]); ([86], VStr [121])]) = false.
+Proof. vm_compute. repeat split; reflexivity. Qed.
